@@ -207,9 +207,6 @@ def judge(evs, violations, stats):
     for ev in evs:
         st = ev.case.get('stream', '?').split(':')[0]
         stats['runs:' + st] += 1
-        if ev.exc and CK.is_end_inclusion_crash(ev):
-            stats['end_inclusion_crash'] += 1        # nothing is emitted: C01 owns the finding
-            continue
         if ev.exc:
             violations.append({'what': 'callVariant aborted with %s (%s)' % (ev.exc['__exc__'], ev.exc.get('msg', '')[:120]),
                                'replay_obj': CK.replay_obj(ev, 'crash'), 'no_input': False})
